@@ -109,6 +109,7 @@ def ihex(data):
 class Impl:
     nested = None
     failed_saves = 0
+    pubs = 0
     restarts = 0
     during_stop = None
     unfailed_saves = 0
@@ -140,6 +141,12 @@ class Impl:
         # reconstruct the command string the pump handed to transport.send
         lv = topic.split("/")[-5:]
         self.log.append(("S", ";".join(lv[:3] + [str(qos), lv[4], payload]) + "\n"))
+        # the observation is the publish ATTEMPT; with cfg["pub_fail_every"] = k every k-th attempt then fails
+        # (broker unreachable): the transport swallows that, nothing else may follow from it
+        self.pubs += 1
+        k = self.cfg.get("pub_fail_every")
+        if k and self.pubs % k == 0:
+            raise OSError("broker unreachable (harness)")
 
     def _callback(self, msg):
         self.log.append(("CB", [msg.node_id, msg.child_id, int(msg.type), msg.ack, int(msg.sub_type), msg.payload],
